@@ -139,26 +139,18 @@ example : check Cls.rank (withL M .sleep) [] = none := by decide
 `apply_writes`) is rejected. -/
 example : check Cls.rank (withL S enableSketch) [] = none := by decide
 
-/-- Builds one unfolding: prefers the non-`skip` arm of every branch, picks instance 0,
-leaves loops after zero rounds. -/
-macro "unfold_default" : tactic =>
-  `(tactic| repeat (first
-      | exact Unfolds.skip | exact Unfolds.sleep
-      | exact Unfolds.acq (Lock.mk _ 0) rfl | exact Unfolds.rel _ rfl
-      | apply Unfolds.seq | apply Unfolds.altR
-      | exact Unfolds.loopZ | exact Unfolds.starZ
-      | apply Unfolds.tryL (Lock.mk _ 0) rfl))
-
+set_option maxRecDepth 8192 in
 /-- `IsCacheThread` is inhabited by a thread that performs `get; insert; invalidate;
-sync`, with code that is not `done`. -/
+sync`, with code that is not `done` (the default unfolding `Lemmas/ConcL.unf`: every
+optional part taken, including `try_sync` with a full `Inner::sync`, loops left after
+zero rounds; it has 100+ lock events). -/
 example : ∃ t : Thread Lock, IsCacheThread t ∧ t.code ≠ .done := by
-  refine ⟨⟨[], ?c⟩, ⟨rfl, [.get, .insert, .invalidate, .sync], ?h', ?hu⟩, ?hne⟩
-  case hu =>
-    simp only [opsProg, table, seqs, withL, opt, leaf, clockNow, tAcc, nAcc, recordReadOp,
-      trySync, innerSync, scheduleWriteOp, doInsert, expiredChecks, applyReads,
-      applyWrites, enableSketch, evictExpired, evictLru, removeExpiredWo, removeExpiredAo]
-    unfold_default
-  case hne => simp
+  obtain ⟨h', c, hu, hne⟩ :=
+    unfolds_of_unfSize (p := opsProg [.get, .insert, .invalidate, .sync]) (by decide)
+  exact ⟨⟨[], c⟩, ⟨rfl, _, h', hu⟩, hne⟩
+
+set_option maxRecDepth 8192 in
+example : unfSize (opsProg [.get, .insert, .invalidate, .sync]) > 100 := by decide
 
 /-- The semantics can deadlock when the discipline is violated (so the theorems are not
 true for trivial reasons): the classic two-lock inversion. -/
